@@ -595,3 +595,105 @@ c01_plain_subframe!(c01_verbatim_writer_roundtrip_b32, 3, 12, false, 32, 0);
 // @bound CONSTANT subframe for a block of 3 at 8 bits with 1 wasted bit, any value that fits
 // @oracle decoder and reference model return the value << wasted three times; size == 8 + wasted + effective bits
 c01_plain_subframe!(c01_constant_writer_roundtrip_b8_w1, 3, 8, true, 8, 1);
+
+// ===========================================================================
+// C01 kernel 4: inter-channel decorrelation and its inverse
+// ===========================================================================
+
+macro_rules! c01_correlate {
+    ($name:ident, $bps:expr) => {
+        #[kani::proof]
+        #[kani::unwind(6)]
+        fn $name() {
+            let l: [i32; 2] = kani::any();
+            let r: [i32; 2] = kani::any();
+            let lo = -(1i64 << ($bps - 1));
+            let hi = (1i64 << ($bps - 1)) - 1;
+            let mut i = 0;
+            while i < 2 {
+                kani::assume(i64::from(l[i]) >= lo && i64::from(l[i]) <= hi);
+                kani::assume(i64::from(r[i]) >= lo && i64::from(r[i]) <= hi);
+                i += 1;
+            }
+            let mut opts = enc_opts(0, false);
+            opts.mid_side = kani::any();
+            let mut cache = CorrelationCache::default();
+            let c = correlate_channels(&opts, &mut cache, [&l, &r], SignedBitCount::<32>::new::<$bps>());
+            let [c0, c1] = &c.channels;
+            assert!(c0.samples.len() == 2 && c1.samples.len() == 2);
+            let mut i = 0;
+            while i < 2 {
+                let a = i64::from(c0.samples[i]);
+                let b = i64::from(c1.samples[i]);
+                // the decoder's restoration (RFC 9639 section 4.2), in 64 bits
+                let (rl, rr, w0, w1): (i64, i64, u32, u32) = match c.channel_assignment {
+                    ChannelAssignment::Independent(_) => (a, b, $bps, $bps),
+                    ChannelAssignment::LeftSide => (a, a - b, $bps, $bps + 1),
+                    ChannelAssignment::SideRight => (a + b, b, $bps + 1, $bps),
+                    ChannelAssignment::MidSide => {
+                        let m2 = (a << 1) | (b & 1);
+                        ((m2 + b) >> 1, (m2 - b) >> 1, $bps, $bps + 1)
+                    }
+                };
+                assert!(rl == i64::from(l[i]) && rr == i64::from(r[i]));
+                // each channel fits the width its subframe is written with
+                assert!(u32::from(c0.bits_per_sample) == w0 && u32::from(c1.bits_per_sample) == w1);
+                assert!(a >= -(1i64 << (w0 - 1)) && a < (1i64 << (w0 - 1)));
+                assert!(b >= -(1i64 << (w1 - 1)) && b < (1i64 << (w1 - 1)));
+                // the "all samples are zero" hint is trusted by encode_subframe
+                if c0.all_0 {
+                    assert!(a == 0);
+                }
+                if c1.all_0 {
+                    assert!(b == 0);
+                }
+                i += 1;
+            }
+            if !opts.mid_side {
+                assert!(!matches!(c.channel_assignment, ChannelAssignment::MidSide));
+            }
+            kani::cover!(matches!(c.channel_assignment, ChannelAssignment::LeftSide));
+            kani::cover!(matches!(c.channel_assignment, ChannelAssignment::SideRight));
+            std::mem::forget(cache);
+        }
+    };
+}
+
+// @harness prop=C01,C02 tier=quick expect=pass timeout=900
+// @units encode::correlate_channels
+// @bound 2 stereo samples, every left/right value that fits 16 bits, mid-side on or off
+// @oracle undoing the chosen decorrelation the way RFC 9639 prescribes returns the input; every channel handed to the subframe encoder fits the width it is encoded with (side channel: one bit more); an "all zero" hint is only given for an all-zero channel; no mid-side when it is switched off
+c01_correlate!(c01_correlate_channels_b16, 16);
+
+// @harness prop=C01,C02 tier=quick expect=pass timeout=900
+// @units encode::correlate_channels
+// @bound as above at 31 bits per sample (the side channel fills an i32)
+c01_correlate!(c01_correlate_channels_b31, 31);
+
+// @harness prop=C01,C02 tier=quick expect=pass timeout=600
+// @units encode::correlate_channels
+// @bound 2 full-range stereo samples at 32 bits per sample
+// @oracle 32-bit input is never given a side channel: both channels independent and unchanged
+#[kani::proof]
+#[kani::unwind(6)]
+fn c01_correlate_channels_b32_independent() {
+    let l: [i32; 2] = kani::any();
+    let r: [i32; 2] = kani::any();
+    let mut opts = enc_opts(0, false);
+    opts.mid_side = kani::any();
+    let mut cache = CorrelationCache::default();
+    let c = correlate_channels(&opts, &mut cache, [&l, &r], SignedBitCount::<32>::new::<32>());
+    assert!(matches!(c.channel_assignment, ChannelAssignment::Independent(Independent::Stereo)));
+    let [c0, c1] = &c.channels;
+    assert!(c0.samples[0] == l[0] && c0.samples[1] == l[1] && c1.samples[0] == r[0] && c1.samples[1] == r[1]);
+    assert!(u32::from(c0.bits_per_sample) == 32 && u32::from(c1.bits_per_sample) == 32);
+    if c0.all_0 {
+        assert!(l[0] == 0 && l[1] == 0);
+    }
+    std::mem::forget(cache);
+}
+
+// (frame assembly - encode_frame with the subframe encoder stubbed to emit 13
+// arbitrary bits, through the real BitWriter/CrcWriter/Counter chain - did not
+// finish in 1200 s; zero padding, CRC-16 placement and the frame-size extrema
+// updated at the end of encode_frame are therefore outside every claim)
